@@ -8,5 +8,19 @@ PROP = dict(
              'distinct = by hash of (op, observation); non-trivial = a mutating op or a lookup that found a node',
         trusted=['harness bookkeeping only chooses operations; contracts are re-decided by the Lean driver on the dumped pool'],
         assumptions=['sequential use of one ObjectTree', 'pool length < 2^32-1 (uint32 indices)'],
-        level_text='TODO', level_note='TODO',
+        level_text='Lean theorems over the index-linked pool model of obj_tree.go, for every pool and every byte string: find_total / '
+                   'findRelative_total (Find never panics or loops on a well-formed pool, for ANY expression and live scope, and never '
+                   'returns a freed slot), numArgs_correct / argAt_correct (= the abstract child list), closestNamedAncestor_total, '
+                   'no_freed_reachable (links of live objects reach only live objects; child lists agree with parent links), '
+                   'free_slots_reused_first, wfCheck_sound (the oracle\'s executable well-formedness check implies WF), '
+                   'ops_preserve_WF_partial + history_partial (newObject only). The model is tied to the Go code by regenerated constants '
+                   'and a differential run of every ObjectTree operation and query with a full pool dump after each operation; the oracle '
+                   'runs on the implementation\'s dump: WF after every in-contract op, the op\'s effect on the abstract forest, freed '
+                   'slots reused before growth, and each lookup result = the four-clause ACPI resolver on the abstracted forest.',
+        level_note='PARTIAL. Proved for all inputs: totality/no-crash of all lookups on well-formed pools, free-list reuse, no freed '
+                   'object reachable, soundness of the oracle\'s WF checker, WF preservation of newObject. NOT proved, decided by the '
+                   'oracle on generated histories only: WF preservation and abstract effect of append/appendAfter/detach/free '
+                   '(ops_preserve_WF, history) and find_correct (Find = resolve on encoder-image expressions). Trusted: Lean kernel '
+                   '(+ propext, Classical.choice, Quot.sound), the statements in Props/C13.lean and Spec/C13.lean (WF, resolve, encode), '
+                   'the harness and replay driver (correspondence is differential testing, not a proof about the Go code).',
 )
